@@ -32,6 +32,7 @@ func init() {
 func runC10(c *report.Ctx) {
 	checkReserveOneCriticalSection(c)
 	checkSingleAcquisition(c)
+	checkInvokeWaitsForExtensions(c) // the reservation is given back only when the extensions are done too
 	checkErrorIdentity(c, scopeFrontEnd, frontEndDeadCases, 8)
 	checkAwaitReleaseOnlyOnSuccess(c)
 	c.Clause("1 reservation test-and-set")
